@@ -27,8 +27,8 @@ RULE = (
     "the real engine; distinct = distinct (item, request sequence, event sequence); non-trivial = a limit was actually reached or a stop was requested"
 )
 BOUNDS = {
-    "quick": {"preemptions": 1, "env_deviations": 1, "max_examples": [1, 2, 3], "steps": [1, 2], "max_exec_per_item": 500},
-    "thorough": {"preemptions": 2, "env_deviations": 1, "max_examples": [1, 2, 5], "steps": [1, 2, 3], "max_exec_per_item": 20000},
+    "quick": {"preemptions": 1, "env_deviations": 1, "total_deviations": 1, "max_examples": [1, 2, 3], "steps": [1, 2], "max_exec_per_item": 1500},
+    "thorough": {"preemptions": 2, "env_deviations": 1, "total_deviations": 2, "max_examples": [1, 2, 5], "steps": [1, 2, 3], "max_exec_per_item": 20000},
 }
 BUDGET_S = {"quick": 140, "thorough": 3300}
 CHUNK = 1
@@ -52,7 +52,7 @@ def items(tier: str, seed: int) -> list[dict]:
 
     def add(**kw: Any) -> None:
         base = {"doc": "unit3", "phases": ["fuzzing"], "workers": 2, "max_failures": None, "cof": False, "behaviour": "ok",
-                "fault": None, "p": p, "e": e, "max_examples": 1, "unique": False}
+                "fault": None, "p": p, "e": e, "max_examples": 1, "unique": False, "total": b["total_deviations"]}
         base.update(kw)
         out.append(base)
 
